@@ -343,10 +343,27 @@ _NUM_FUNCS = {
 }
 
 
+def _close_piecewise(e):
+    """give every Piecewise without default the shared opaque default, exactly as the z3 translation does, so that a
+    sat model in which "no branch applies" on one side can be replayed."""
+    und = sympy.Symbol(UNDEF)
+
+    def fix(pw):
+        if pw.args and pw.args[-1][1] is not sympy.true:
+            return sympy.Piecewise(*(list(pw.args) + [(und, True)]))
+        return pw
+    try:
+        return e.replace(lambda x: isinstance(x, sympy.Piecewise), fix)
+    except Exception:  # noqa
+        return e
+
+
 def numeric_eval(expr, values):
     """Evaluate a sympy expression (as produced by pharmpy) in IEEE doubles with the real exp/log/...; `values` maps
     symbol / applied-function names to floats.  Returns float or None when undefined."""
-    e = to_sympy(expr)
+    e = _close_piecewise(to_sympy(expr))
+    values = dict(values)
+    values.setdefault(UNDEF, 12345.678)       # the shared opaque value of "no branch applies" (see Tr.piecewise)
     subs = {}
     for s in e.free_symbols:
         if s.name in values:
